@@ -58,6 +58,12 @@ type KnownFinding struct {
 	What       string `json:"what"`
 	Witness    string `json:"witness"`
 	Status     string `json:"status"` // known | fixed
+	// Match "clause": the finding is the failure of the named contract clause in
+	// the named function wherever the call it is checked at sits (the "@site"
+	// part of the obligation name — the source text of the call — is ignored),
+	// so that moving the call into a helper does not turn a recorded finding
+	// into a new alarm. Default: the full obligation name must match.
+	Match string `json:"match,omitempty"`
 	Commit     string `json:"commit,omitempty"`
 	Replay     string `json:"replay,omitempty"`
 }
@@ -526,6 +532,126 @@ func checkProperty(id, tier string) int {
 			}
 		}
 	}
+	// Swept helpers that every caller takes by its body (no contract, small,
+	// loop-free, only ever called statically from functions verified in this
+	// run) are verified inside those callers, with the arguments the callers
+	// really pass, and not once more on their own with arbitrary arguments:
+	// a helper extracted from a verified function would otherwise need a
+	// contract of its own before the check is quiet again.
+	var viaCallers []string
+	if len(swept) > 0 {
+		inSet := map[*ssa.Function]bool{}
+		for _, fn := range fns {
+			inSet[fn] = true
+		}
+		callers := map[*ssa.Function][]*ssa.Function{} // callee -> functions with a plain static call of it
+		escapes := map[*ssa.Function]bool{}            // referenced other than as the callee of a plain call
+		invoked := map[string]bool{}                   // method names called through interfaces
+		for _, caller := range P.Funcs {
+			var all []*ssa.Function
+			var collect func(f *ssa.Function)
+			collect = func(f *ssa.Function) {
+				all = append(all, f)
+				for _, af := range f.AnonFuncs {
+					collect(af)
+				}
+			}
+			if caller.Parent() == nil {
+				collect(caller)
+			}
+			for _, f := range all {
+				for _, b := range f.Blocks {
+					for _, instr := range b.Instrs {
+						if _, isDbg := instr.(*ssa.DebugRef); isDbg {
+							continue
+						}
+						var ops []*ssa.Value
+						ops = instr.Operands(ops)
+						if call, ok := instr.(*ssa.Call); ok {
+							if call.Common().IsInvoke() {
+								invoked[call.Common().Method.Name()] = true
+							} else if callee := call.Common().StaticCallee(); callee != nil {
+								callers[callee] = append(callers[callee], f)
+								// arguments may still mention functions as values
+								for _, a := range call.Common().Args {
+									if fv, ok := a.(*ssa.Function); ok {
+										escapes[fv] = true
+									}
+								}
+								continue
+							}
+						}
+						if g, ok := instr.(*ssa.Go); ok && g.Call.IsInvoke() {
+							invoked[g.Call.Method.Name()] = true
+						}
+						if d, ok := instr.(*ssa.Defer); ok && d.Call.IsInvoke() {
+							invoked[d.Call.Method.Name()] = true
+						}
+						for _, op := range ops {
+							if op != nil {
+								if fv, ok := (*op).(*ssa.Function); ok {
+									if os.Getenv("GOVC_DEBUG_INLINE") != "" && strings.Contains(fv.Name(), os.Getenv("GOVC_DEBUG_INLINE")) {
+										fmt.Fprintf(os.Stderr, "escape of %s in %s: %T %v\n", fv.Name(), fnDisplay(f), instr, instr)
+									}
+									escapes[fv] = true
+								}
+							}
+						}
+					}
+				}
+			}
+		}
+		covered := map[*ssa.Function]int{} // 0 unknown, >0 nesting level, -1 no
+		var level func(fn *ssa.Function, depth int) int
+		level = func(fn *ssa.Function, depth int) int {
+			if v, ok := covered[fn]; ok {
+				return v
+			}
+			covered[fn] = -1
+			if os.Getenv("GOVC_DEBUG_INLINE") != "" && strings.Contains(fn.Name(), os.Getenv("GOVC_DEBUG_INLINE")) {
+				fmt.Fprintf(os.Stderr, "level %s: swept=%v parent=%v contract=%v escapes=%v small=%v backedge=%v callers=%d\n", fnDisplay(fn), swept[fn], fn.Parent() != nil, P.contractFor(fn) != nil, escapes[fn], smallStraight(fn), hasBackEdge(fn), len(callers[fn]))
+			}
+			if depth > 3 || !swept[fn] || fn.Parent() != nil || P.contractFor(fn) != nil || escapes[fn] || !smallStraight(fn) || hasBackEdge(fn) {
+				return -1
+			}
+			if fn.Signature.Recv() != nil && invoked[fn.Name()] {
+				return -1
+			}
+			if len(callers[fn]) == 0 {
+				return -1
+			}
+			lv := 1
+			for _, c := range callers[fn] {
+				if c == fn || !inSet[c] {
+					return -1
+				}
+				root := c
+				for root.Parent() != nil {
+					root = root.Parent()
+				}
+				if l := level(c, depth+1); l > 0 {
+					if l+1 > lv {
+						lv = l + 1
+					}
+				}
+			}
+			if lv > 2 {
+				return -1
+			}
+			covered[fn] = lv
+			return lv
+		}
+		var kept []*ssa.Function
+		for _, fn := range fns {
+			if swept[fn] && level(fn, 0) > 0 {
+				viaCallers = append(viaCallers, fnDisplay(fn))
+				continue
+			}
+			kept = append(kept, fn)
+		}
+		fns = kept
+		sort.Strings(viaCallers)
+	}
 	// run executors in parallel
 	runs = make([]*fnRun, len(fns))
 	var wg sync.WaitGroup
@@ -552,15 +678,15 @@ func checkProperty(id, tier string) int {
 	trusted := map[string]bool{}
 	var fnNames []string
 	totalPaths := 0
-	otherKnown := map[string]bool{}
+	otherKnown := newKnownIndex()
 	for _, k := range known {
 		if k.Property != id && k.Status == "known" {
-			otherKnown[k.Obligation] = true
+			otherKnown.add(k)
 		}
 	}
 	for _, k := range known {
 		if k.Property == id && k.Status == "known" {
-			delete(otherKnown, k.Obligation)
+			otherKnown.remove(k)
 		}
 	}
 	for _, r := range runs {
@@ -587,7 +713,7 @@ func checkProperty(id, tier string) int {
 				continue
 			}
 			skip := false
-			if otherKnown[o.Name] {
+			if otherKnown.has(o.Name) {
 				// recorded as a known finding of another property: that property's
 				// check reports it, this one does not claim the obligation
 				skip = true
@@ -670,10 +796,10 @@ func checkProperty(id, tier string) int {
 	}
 
 	var extraResults []*ObligResult
-	knownNames := map[string]bool{}
+	knownNames := newKnownIndex()
 	for _, k := range known {
 		if k.Property == id && k.Status == "known" {
-			knownNames[k.Obligation] = true
+			knownNames.add(k)
 		}
 	}
 	// discharge
@@ -687,7 +813,7 @@ func checkProperty(id, tier string) int {
 			dsem <- struct{}{}
 			defer func() { <-dsem }()
 			t := timeoutS
-			if knownNames[g.name] && tier != "thorough" {
+			if knownNames.has(g.name) && tier != "thorough" {
 				// recorded as not provable: do not spend the full budget on it
 				t = 4
 			}
@@ -702,7 +828,7 @@ func checkProperty(id, tier string) int {
 		var rwg sync.WaitGroup
 		rsem := make(chan struct{}, 2)
 		for i, name := range order {
-			if results[i] == nil || results[i].Result != "undecided" || knownNames[name] {
+			if results[i] == nil || results[i].Result != "undecided" || knownNames.has(name) {
 				continue
 			}
 			rwg.Add(1)
@@ -778,6 +904,78 @@ func checkProperty(id, tier string) int {
 		if len(bad) > 0 {
 			res.Result = "undecided"
 			res.Note += "; also calls: " + strings.Join(bad, ", ")
+		}
+		extraResults = append(extraResults, res)
+	}
+	// never-calls clauses: a deny-list over the function, its closures and the
+	// same-package functions it (transitively) calls statically
+	for _, r := range runs {
+		c := P.contractFor(r.fn)
+		if c == nil || len(c.NeverCalls) == 0 {
+			continue
+		}
+		var bad []string
+		seen := map[*ssa.Function]bool{}
+		var scan func(fn *ssa.Function, depth int)
+		scan = func(fn *ssa.Function, depth int) {
+			if fn == nil || seen[fn] || depth > 8 {
+				return
+			}
+			seen[fn] = true
+			for _, b := range fn.Blocks {
+				for _, instr := range b.Instrs {
+					var cc *ssa.CallCommon
+					switch in := instr.(type) {
+					case *ssa.Call:
+						cc = in.Common()
+					case *ssa.Go:
+						cc = &in.Call
+					case *ssa.Defer:
+						cc = &in.Call
+					case *ssa.MakeClosure:
+						scan(in.Fn.(*ssa.Function), depth+1)
+					}
+					if cc == nil {
+						continue
+					}
+					name := ""
+					if cc.IsInvoke() {
+						name = typeName(cc.Value.Type()) + "." + cc.Method.Name()
+					} else if callee := cc.StaticCallee(); callee != nil {
+						if isRepoFunc(callee) {
+							name = fnDisplay(callee)
+							if callee.Pkg == r.fn.Pkg {
+								scan(callee, depth+1)
+							}
+						} else {
+							name = callee.String()
+						}
+					}
+					// a denied function passed as a value escapes the call scan
+					for _, a := range cc.Args {
+						if f, ok := a.(*ssa.Function); ok {
+							for _, d := range c.NeverCalls {
+								if strings.Contains(fnDisplay(f), d) || strings.Contains(f.String(), d) {
+									bad = append(bad, fnDisplay(fn)+" passes "+f.String()+" as a value")
+								}
+							}
+						}
+					}
+					for _, d := range c.NeverCalls {
+						if name != "" && strings.Contains(name, d) {
+							bad = append(bad, fmt.Sprintf("%s calls %s (%s)", fnDisplay(fn), name, P.Fset.Position(instr.Pos())))
+						}
+					}
+				}
+			}
+		}
+		scan(r.fn, 0)
+		sort.Strings(bad)
+		res := &ObligResult{Name: fnDisplay(r.fn) + "#frame:never-calls", Kind: "frame", Paths: 1, Backend: "call-graph scan", Result: "discharged",
+			Note: fmt.Sprintf("denied: %s; %d functions scanned (the function, its closures, same-package static callees transitively); calls through function values and other packages' callees are not followed", strings.Join(c.NeverCalls, ", "), len(seen))}
+		if len(bad) > 0 {
+			res.Result = "undecided"
+			res.Note += "; found: " + strings.Join(bad, "; ")
 		}
 		extraResults = append(extraResults, res)
 	}
@@ -980,10 +1178,10 @@ func checkProperty(id, tier string) int {
 	results = append(results, lemmaResults...)
 
 	// classify
-	knownByName := map[string]KnownFinding{}
+	knownByName := newKnownIndex()
 	for _, k := range known {
 		if k.Property == id && k.Status == "known" {
-			knownByName[k.Obligation] = k
+			knownByName.add(k)
 		}
 	}
 	discharged, failed := 0, 0
@@ -998,7 +1196,7 @@ func checkProperty(id, tier string) int {
 			discharged++
 			backends[r.Backend]++
 		default:
-			if k, ok := knownByName[r.Name]; ok {
+			if k, ok := knownByName.get(r.Name); ok {
 				r.Result = "known-finding"
 				knownHit = append(knownHit, r.Name)
 				fmt.Printf("KNOWN-FINDING: property=%s %s %s\n", id, r.Name, k.What)
@@ -1054,8 +1252,8 @@ func checkProperty(id, tier string) int {
 			exit = 1
 		} else if failedB {
 			st = "FAILED"
-			if _, ok := knownByName[bc.Name]; ok {
-				fmt.Printf("KNOWN-FINDING: property=%s %s %s\n", id, bc.Name, knownByName[bc.Name].What)
+			if kf, ok := knownByName.get(bc.Name); ok {
+				fmt.Printf("KNOWN-FINDING: property=%s %s %s\n", id, bc.Name, kf.What)
 				st = "known finding"
 			} else {
 				p := writeReplay(id, "bounded-"+bc.Name, map[string]interface{}{"bounded_check": bc, "reproduced_on_real_code": true, "output": out,
@@ -1119,6 +1317,7 @@ func checkProperty(id, tier string) int {
 		"bounded_checks":           boundedOut,
 		"engine_errors":            engineErrs,
 		"dangling_contracts":       P.Dangling,
+		"verified_inside_callers":  viaCallers,
 		"vacuity_covers":           len(covers),
 		"explanation":              levelText(prop, total, discharged, knownHit),
 	}
@@ -1224,3 +1423,48 @@ func fsWriterFunc(callee *ssa.Function, args []ssa.Value) bool {
 	}
 	return false
 }
+
+// stripSite removes the "@<source text of the call>" part of an obligation name.
+func stripSite(name string) string {
+	if i := strings.Index(name, "@"); i >= 0 {
+		return name[:i]
+	}
+	return name
+}
+
+// knownIndex looks findings up by obligation name (exactly, or by clause for
+// entries that say so).
+type knownIndex struct {
+	exact  map[string]KnownFinding
+	clause map[string]KnownFinding
+}
+
+func newKnownIndex() *knownIndex {
+	return &knownIndex{exact: map[string]KnownFinding{}, clause: map[string]KnownFinding{}}
+}
+
+func (ki *knownIndex) add(k KnownFinding) {
+	ki.exact[k.Obligation] = k
+	if k.Match == "clause" {
+		ki.clause[stripSite(k.Obligation)] = k
+	}
+}
+
+func (ki *knownIndex) remove(k KnownFinding) {
+	delete(ki.exact, k.Obligation)
+	delete(ki.clause, stripSite(k.Obligation))
+}
+
+func (ki *knownIndex) get(name string) (KnownFinding, bool) {
+	if k, ok := ki.exact[name]; ok {
+		return k, true
+	}
+	if strings.Contains(name, "@") {
+		if k, ok := ki.clause[stripSite(name)]; ok {
+			return k, true
+		}
+	}
+	return KnownFinding{}, false
+}
+
+func (ki *knownIndex) has(name string) bool { _, ok := ki.get(name); return ok }
